@@ -258,6 +258,7 @@ def _ref_desc(space_or_model, name, own=True):
 
 def describe_cells(c, with_values=True):
     d = {}
+    d["name"] = safe(lambda: c.name)            # the object's own idea of its name (== its key in the container)
     d["src"] = safe(lambda: c.formula.source)
     d["params"] = safe(lambda: list(c.parameters))
     d["cached"] = safe(lambda: bool(c.is_cached))
